@@ -8,7 +8,6 @@ TRUST = ("Trusted base: clang-14 front end and the analysis-only shims in /verif
 NOT_APPLICABLE = {
     "C24": "feerate-diagram optimality / never-worse is a property of algorithm output over all graphs; no structural necessary condition short of re-proving the algorithm",
     "C25": "reference-model equivalence over operation sequences (runtime SanityCheck is its guard); not a shape-of-code fact",
-    "C30": "exactness of 128-bit products/divisions and diagram comparison for all values is numeric",
     "C40": "optimality/sufficiency of search algorithms over all pools (algorithmic, value-level)",
     "C45": "parser/printer inverse and checksum-distance properties (algorithmic)",
     "C49": "numeric functions vs standards (hash/cipher outputs)",
